@@ -895,7 +895,9 @@ func c17RespeltNeighbourProbe(res *core.Result) {
 	}
 	for _, lit := range lits {
 		for _, nx := range nexts {
-			for _, trail := range []string{" // after first\n\n", "\n// after first\n\n"} {
+			// the last three: a trailing group of more than one comment (S282), also with the next declaration directly behind it
+			for _, trail := range []string{" // after first\n\n", "\n// after first\n\n", " // after first;\n// continued after first\n\n",
+				" // after first;\n// continued after first\n", " /* after first */ /* and again */\n\n"} {
 				result := "float64"
 				if lit == "0xFF" {
 					// the spelling gofmt keeps, and a result in parentheses that gofmt drops
